@@ -410,7 +410,16 @@ func (fr *Frame) binop(in *ssa.BinOp) *GVal {
 		case token.MUL:
 			return res(App("fp.mul", SF64, mk("RNE", mkSort("RoundingMode")), x, y))
 		case token.QUO:
-			return res(App("f64.div", SF64, x, y))
+			dv := App("f64.div", SF64, x, y)
+			// f64.div is uninterpreted (see DESIGN 2.6); one IEEE fact is given: dividing a finite
+			// number by a divisor >= 1 cannot leave the finite range (|x/y| <= |x|, rounding is monotone).
+			ex.p.assumptions["arith: x / y is finite when x is finite and y >= 1.0 (IEEE-754 division)"] = true
+			one := mk("((_ to_fp 11 53) RNE 1.0)", SF64)
+			fin := func(t *Term) *Term {
+				return And(Not(App("fp.isNaN", SBool, t)), Not(App("fp.isInfinite", SBool, t)))
+			}
+			ex.addFact(Implies(And(fin(x), App("fp.geq", SBool, y, one)), fin(dv)))
+			return res(dv)
 		case token.LSS:
 			return res(App("f64.lt", SBool, x, y))
 		case token.LEQ:
@@ -747,7 +756,14 @@ func (fr *Frame) convert(in *ssa.Convert) *GVal {
 	case fok && tok && x.S.IsBV() && ts.IsBV():
 		return res(bvResize(x, ts.BVWidth(), fb.Info()&types.IsUnsigned == 0))
 	case fok && tok && x.S == SInt && ts == SF64:
-		return res(App("(_ to_fp 11 53)", SF64, mk("RNE", mkSort("RoundingMode")), App("to_real", mkSort("Real"), x)))
+		cv := App("(_ to_fp 11 53)", SF64, mk("RNE", mkSort("RoundingMode")), App("to_real", mkSort("Real"), x))
+		// IEEE facts about int -> float64 conversion the solvers do not derive across theories:
+		// a machine integer converts to a finite number, and conversion is monotone (>= 1 stays >= 1).
+		ex.p.assumptions["arith: float64(int) is finite and monotone (n >= 1 gives a value >= 1.0)"] = true
+		one := mk("((_ to_fp 11 53) RNE 1.0)", SF64)
+		ex.addFact(And(Not(App("fp.isNaN", SBool, cv)), Not(App("fp.isInfinite", SBool, cv)),
+			Implies(Ge(x, IntLit(1)), App("fp.geq", SBool, cv, one))))
+		return res(cv)
 	case fok && tok && x.S.IsBV() && ts == SStr && tb.Kind() == types.String:
 		// string(rune)
 		r := App("gs.fromRune", SStr, bvResize(x, 32, true))
